@@ -11,7 +11,10 @@
         processDHKey_run, c01_guard_dhkey, processDHKey_throw.
   §1  frames BaseFrame ⊂ StrictFrame ⊂ QuietFrame and *_base / *_strict / *_quiet lemmas for every function on the
         AKE paths; processAKE_run_some / _none (decomposition into akeRest / akeDispatch / akeTail);
-        processAKE_quiet, processAKE_strict, processAKE_strict_idle, c01_paths, c01_paths_keys.
+        processAKE_quiet, processAKE_strict, processAKE_strict_nonfinishing (repaired code: no
+        retransmission after an ignored message; retransmitOrReveal_quiet,
+        retransmitAfterCompletedExchange_quiet), processAKE_strict_idle, c01_paths, c01_paths_keys_any,
+        c01_paths_keys.
   §5  c01_finish_responder, c01_finish_initiator, c01_dhkey_step, recvSig_awaiting_cases,
         recvRevealSig_awaiting_cases, c01_processAKE_sig, c01_processAKE_revealSig.
   §6  the role flag `sentRevealSig` (repaired code): c01_role_kept_while_encrypted, c01_role_kept_processAKE,
@@ -969,7 +972,7 @@ theorem recvDHKey_strict (K : Crypto) (st : AuthState) (msg : Bytes) : Stable St
 theorem messageHeader_quiet (t : Nat) : Stable QuietFrame (messageHeader t) :=
   (messageHeader_base t).base_strict.strict_quiet
 
-theorem encryptPlain_run (K : Crypto) (key ctr : Bytes) (p : PlainDataMsg) (s : MState) :
+theorem encryptPlain_returns (K : Crypto) (key ctr : Bytes) (p : PlainDataMsg) (s : MState) :
     ∃ v, runM (encryptPlain K key ctr p) s = .ok (.ok v, s) := by
   unfold encryptPlain
   split
@@ -1027,7 +1030,7 @@ theorem genDataMsgWithFlag_quiet (K : Crypto) (m : Bytes) (f : Nat) (tlvs : List
       generalize hs1 : MState.mk _ s.env s.events s.mismatch = s1 at h
       have hq1 : quietKept s1 = quietKept s := by subst hs1; rfl
       have hm1 : s1.conv.msgState = .encrypted := by subst hs1; exact hm
-      obtain ⟨v, hv⟩ := encryptPlain_run K sk.sendAES
+      obtain ⟨v, hv⟩ := encryptPlain_returns K sk.sendAES
         (be64 (if (findCounter s.conv.keys.counters (s.conv.keys.ourKeyID - 1) s.conv.keys.theirKeyID).fst.ourCounter = 0
           then 1 else (findCounter s.conv.keys.counters (s.conv.keys.ourKeyID - 1) s.conv.keys.theirKeyID).fst.ourCounter))
         { message := m, tlvs := tlvs } s1
@@ -1101,6 +1104,21 @@ theorem maybeRetransmit_idle (K : Crypto) (s : MState)
   unfold maybeRetransmit
   simp only [runM_bind, runM_getc, bindM_ok, h, ↓reduceIte, runM_pure]
 
+theorem retransmitOrReveal_quiet (K : Crypto) : Stable QuietFrame (retransmitOrReveal K) := by
+  unfold retransmitOrReveal
+  stable [maybeRetransmit_quiet, genDataMsgWithFlag_quiet, wrapMessageHeader_quiet]
+
+theorem retransmitAfterCompletedExchange_quiet (K : Crypto) (before after : AuthState) (e : Option Err) :
+    Stable QuietFrame (retransmitAfterCompletedExchange K before after e) := by
+  by_cases h : before = .none ∨ after ≠ .none ∨ e ≠ none
+  · rw [retransmitAfterCompletedExchange_skip K before after e h]; exact Stable.pure _
+  · have hb : before ≠ .none := fun hb => h (Or.inl hb)
+    have ha : after = .none := Classical.byContradiction fun ha => h (Or.inr (Or.inl ha))
+    have he : e = none := Classical.byContradiction fun he => h (Or.inr (Or.inr he))
+    subst ha he
+    rw [retransmitAfterCompletedExchange_completed K before hb]
+    exact retransmitOrReveal_quiet K
+
 end Frames
 
 /-- the message-type dispatch of `processAKE`, from the authentication state `st` -/
@@ -1117,12 +1135,12 @@ def akeDispatch (K : Crypto) (msgType : Nat) (msg : Bytes) (s : AuthState) :
   else if msgType = msgTypeRevealSig then do
     let (s', m, e) ← recvRevealSig K s msg
     modAke fun a => { a with state := s' }
-    let extra ← maybeRetransmit K
+    let extra ← retransmitAfterCompletedExchange K s s' e
     pure (m, extra, e)
   else if msgType = msgTypeSig then do
     let (s', m, e) ← recvSig K s msg
     modAke fun a => { a with state := s' }
-    let extra ← maybeRetransmit K
+    let extra ← retransmitAfterCompletedExchange K s s' e
     pure (m, extra, e)
   else pure (none, [], some (.other "unknown message type"))
 
@@ -1156,12 +1174,12 @@ theorem processAKE_run_at (K : Crypto) (msgType : Nat) (msg : Bytes) (st : AuthS
         else if msgType = msgTypeRevealSig then do
           let (s', m, e) ← recvRevealSig K st msg
           modAke fun a => { a with state := s' }
-          let extra ← maybeRetransmit K
+          let extra ← retransmitAfterCompletedExchange K st s' e
           pure (m, extra, e)
         else if msgType = msgTypeSig then do
           let (s', m, e) ← recvSig K st msg
           modAke fun a => { a with state := s' }
-          let extra ← maybeRetransmit K
+          let extra ← retransmitAfterCompletedExchange K st s' e
           pure (m, extra, e)
         else pure (none, [], some (.other "unknown message type"))
       let t ← now
@@ -1228,11 +1246,11 @@ theorem akeDispatch_quiet (K : Crypto) (t : Nat) (msg : Bytes) (st : AuthState)
     · split
       · rename_i ht
         rw [recvRevealSig_other K st msg (fun hs => h (Or.inl ⟨ht, hs⟩))]
-        stable [maybeRetransmit_quiet]
+        stable [retransmitAfterCompletedExchange_quiet]
       · split
         · rename_i ht
           rw [recvSig_other K st msg (fun rs hs => h (Or.inr ⟨ht, rs, hs⟩))]
-          stable [maybeRetransmit_quiet]
+          stable [retransmitAfterCompletedExchange_quiet]
         · exact Stable.pure _
 
 theorem akeRest_quiet (K : Crypto) (t : Nat) (msg : Bytes) (st : AuthState)
@@ -1624,29 +1642,31 @@ theorem c01_finish_initiator (K : Crypto) (msg rs : Bytes) (s s' : MState) (a : 
   · show s6.events ++ _ = _
     rw [hev6, hm6]
 
-/-- what `processAKE` does after `recvRevealSig` / `recvSig` returned the triple `x` -/
-def akeTail (K : Crypto) (x : AuthState × Option Bytes × Option Err) : M (List Bytes × Option Err) := do
+/-- what `processAKE` does after `recvRevealSig` / `recvSig`, called in the authentication state `st`, returned
+    the triple `x` -/
+def akeTail (K : Crypto) (st : AuthState) (x : AuthState × Option Bytes × Option Err) :
+    M (List Bytes × Option Err) := do
   modAke fun a => { a with state := x.1 }
-  let extra ← maybeRetransmit K
+  let extra ← retransmitAfterCompletedExchange K st x.1 x.2.2
   let t ← now
   modAke fun a => { a with lastStateChange := some t }
   return ((match x.2.1 with | some m => [m] | none => []) ++ extra, x.2.2)
 
-theorem akeTail_quiet (K : Crypto) (x : AuthState × Option Bytes × Option Err) :
-    Stable QuietFrame (akeTail K x) := by
+theorem akeTail_quiet (K : Crypto) (st : AuthState) (x : AuthState × Option Bytes × Option Err) :
+    Stable QuietFrame (akeTail K st x) := by
   unfold akeTail modAke
-  stable [maybeRetransmit_quiet]
+  stable [retransmitAfterCompletedExchange_quiet]
 
 theorem akeRest_revealSig (K : Crypto) (msg : Bytes) (st : AuthState) (s : MState) :
     runM (akeRest K msgTypeRevealSig msg st) s =
-      bindM (runM (recvRevealSig K st msg) s) (fun x s1 => runM (akeTail K x) s1) := by
+      bindM (runM (recvRevealSig K st msg) s) (fun x s1 => runM (akeTail K st x) s1) := by
   unfold akeRest akeDispatch akeTail
   simp only [if_neg (by decide : msgTypeRevealSig ≠ msgTypeDHCommit),
     if_neg (by decide : msgTypeRevealSig ≠ msgTypeDHKey), if_pos, runM_bind, bindM_assoc, runM_pure, bindM_ok]
 
 theorem akeRest_sig (K : Crypto) (msg : Bytes) (st : AuthState) (s : MState) :
     runM (akeRest K msgTypeSig msg st) s =
-      bindM (runM (recvSig K st msg) s) (fun x s1 => runM (akeTail K x) s1) := by
+      bindM (runM (recvSig K st msg) s) (fun x s1 => runM (akeTail K st x) s1) := by
   unfold akeRest akeDispatch akeTail
   simp only [if_neg (by decide : msgTypeSig ≠ msgTypeDHCommit),
     if_neg (by decide : msgTypeSig ≠ msgTypeDHKey), if_neg (by decide : msgTypeSig ≠ msgTypeRevealSig),
@@ -1764,7 +1784,7 @@ theorem c01_processAKE_sig (K : Crypto) (msg rs : Bytes) (s s' : MState) (a : Ak
     · left
       subst hv
       simp only [bindM_ok] at h
-      have hq := akeTail_quiet K _ _ _ _ h
+      have hq := akeTail_quiet K _ _ _ _ _ h
       obtain ⟨m, pk, keyID, theirs, ours, hd, ht, ho, hok, hme, htk, htc, hid, -, hss, hrs, -, -⟩ :=
         c01_finish_initiator K msg rs s s1 a ha om e hx
       obtain ⟨q1, q2, q3, q4, -, q6, q7⟩ := quietKept_encrypted hq hme
@@ -1773,7 +1793,7 @@ theorem c01_processAKE_sig (K : Crypto) (msg rs : Bytes) (s s' : MState) (a : Ak
     · right
       subst hv hs1
       simp only [bindM_ok] at h
-      exact akeTail_quiet K _ _ _ _ h
+      exact akeTail_quiet K _ _ _ _ _ h
 
 /-- all the checks a Reveal-Signature message passes before the peer's key `pk` is accepted (C01/3) -/
 def RespGuards (K : Crypto) (msg : Bytes) (a : Ake) (gx : Nat) (pk : DsaPub) (keyID : Nat) : Prop :=
@@ -1890,7 +1910,7 @@ theorem c01_processAKE_revealSig (K : Crypto) (msg : Bytes) (s s' : MState) (a :
     · left
       subst hv
       simp only [bindM_ok] at h
-      have hq := akeTail_quiet K _ _ _ _ h
+      have hq := akeTail_quiet K _ _ _ _ _ h
       obtain ⟨m, gxBytes, gx, pk, keyID, ours, hd, hc, hh, hmpi, hge1, hge2, ho, hok, hme, htk, htc, hid, -, hss,
         hrs, -, -⟩ := c01_finish_responder K msg s s1 a ha om e hx
       obtain ⟨q1, q2, q3, q4, -, q6, q7⟩ := quietKept_encrypted hq hme
@@ -1899,7 +1919,7 @@ theorem c01_processAKE_revealSig (K : Crypto) (msg : Bytes) (s s' : MState) (a :
     · right
       subst hv
       simp only [bindM_ok] at h
-      have hq : quietKept s' = quietKept s1 := akeTail_quiet K _ _ _ _ h
+      have hq : quietKept s' = quietKept s1 := akeTail_quiet K _ _ _ _ _ h
       unfold quietKept at hq
       simp only [Prod.mk.injEq] at hq
       obtain ⟨q1, q2, q3, q4, q5⟩ := hq
@@ -2032,27 +2052,27 @@ theorem c01_dhkey_step (K : Crypto) (msg rsm : Bytes) (s s' : MState) (a : Ake) 
 /-- nothing queued for retransmission -/
 def retransmitIdle (c : Conv) : Prop := c.resendMsgs = [] ∨ c.mayRetransmit = .no
 
-theorem akeTail_idle_strict (K : Crypto) (x : AuthState × Option Bytes × Option Err) (s : MState)
-    (hi : retransmitIdle s.conv) (r : Except Err (List Bytes × Option Err)) (s' : MState)
-    (h : runM (akeTail K x) s = .ok (r, s')) : strictKept s' = strictKept s := by
+/-- repaired code: after a Reveal-Signature / Signature message that was ignored (the authentication state
+    `st` did not fit, so the step returned `(st, none, none)`) nothing is retransmitted, whatever is queued:
+    the whole key context is unchanged -/
+theorem akeTail_ignored_strict (K : Crypto) (st : AuthState) (s : MState)
+    (r : Except Err (List Bytes × Option Err)) (s' : MState)
+    (h : runM (akeTail K st (st, none, none)) s = .ok (r, s')) : strictKept s' = strictKept s := by
   unfold akeTail at h
   rw [runM_bind] at h
   simp only [modAke, runM_modc, bindM_ok] at h
-  rw [runM_bind, maybeRetransmit_idle K _ (by
-    rintro ⟨h1, h2, -⟩
-    rcases hi with hi | hi
-    · simp only [hi, List.length_nil, gt_iff_lt, Nat.lt_irrefl] at h1
-    · exact h2 hi)] at h
+  rw [runM_bind, retransmitAfterCompletedExchange_same] at h
   simp only [bindM_ok, runM_bind, runM_now, runM_modc, runM_pure, Res.ok.injEq, Prod.mk.injEq] at h
   rw [← h.2]
   rfl
 
-/-- C01/1 (frame, strict, also for Reveal-Signature / Signature messages): outside the two finishing
-    combinations and with nothing queued for retransmission the whole key context is unchanged -/
-theorem processAKE_strict_idle (K : Crypto) (t : Nat) (msg : Bytes) (s : MState)
+/-- C01/1 (frame, strict, also for Reveal-Signature / Signature messages; repaired code): outside the two
+    finishing combinations the whole key context is unchanged — an ignored Reveal-Signature or Signature message
+    no longer triggers a retransmission, whatever is queued -/
+theorem processAKE_strict_nonfinishing (K : Crypto) (t : Nat) (msg : Bytes) (s : MState)
     (r : Except Err (List Bytes × Option Err)) (s' : MState)
     (h : runM (processAKE K t msg) s = .ok (r, s'))
-    (hc : ¬ finishingCombination t (authStateOf s.conv)) (hi : retransmitIdle s.conv) :
+    (hc : ¬ finishingCombination t (authStateOf s.conv)) :
     strictKept s' = strictKept s := by
   by_cases h3 : t = msgTypeRevealSig
   · subst h3
@@ -2060,36 +2080,43 @@ theorem processAKE_strict_idle (K : Crypto) (t : Nat) (msg : Bytes) (s : MState)
     | none =>
       rw [processAKE_run_none K _ msg s ha, akeRest_revealSig,
         recvRevealSig_other K .none msg (by simp), runM_pure, bindM_ok] at h
-      have hi0 : retransmitIdle ({ s with conv := { s.conv with ake := some {} } } : MState).conv := hi
-      have h0 := akeTail_idle_strict K _ _ hi0 _ _ h
+      have h0 := akeTail_ignored_strict K _ _ _ _ h
       exact h0
     | some a =>
       rw [authStateOf_some ha] at hc
       rw [processAKE_run_some K _ msg s a ha, akeRest_revealSig,
         recvRevealSig_other K a.state msg (fun hs => hc (Or.inl ⟨rfl, hs⟩)), runM_pure, bindM_ok] at h
-      exact akeTail_idle_strict K _ _ hi _ _ h
+      exact akeTail_ignored_strict K _ _ _ _ h
   · by_cases h4 : t = msgTypeSig
     · subst h4
       cases ha : s.conv.ake with
       | none =>
         rw [processAKE_run_none K _ msg s ha, akeRest_sig,
           recvSig_other K .none msg (by simp), runM_pure, bindM_ok] at h
-        have hi0 : retransmitIdle ({ s with conv := { s.conv with ake := some {} } } : MState).conv := hi
-        have h0 := akeTail_idle_strict K _ _ hi0 _ _ h
+        have h0 := akeTail_ignored_strict K _ _ _ _ h
         exact h0
       | some a =>
         rw [authStateOf_some ha] at hc
         rw [processAKE_run_some K _ msg s a ha, akeRest_sig,
           recvSig_other K a.state msg (fun rs hs => hc (Or.inr ⟨rfl, rs, hs⟩)), runM_pure, bindM_ok] at h
-        exact akeTail_idle_strict K _ _ hi _ _ h
+        exact akeTail_ignored_strict K _ _ _ _ h
     · exact processAKE_strict K t msg s r s' h h3 h4
 
-/-- C01/1 with the whole key context: as `c01_paths`, for any change of `conv.keys`, provided nothing is queued
-    for retransmission (a retransmission sends data messages, which advances counters and MAC-key bookkeeping) -/
-theorem c01_paths_keys (K : Crypto) (t : Nat) (msg : Bytes) (s : MState)
+/-- the earlier form, with the (now superfluous) hypothesis that nothing is queued for retransmission -/
+theorem processAKE_strict_idle (K : Crypto) (t : Nat) (msg : Bytes) (s : MState)
     (r : Except Err (List Bytes × Option Err)) (s' : MState)
     (h : runM (processAKE K t msg) s = .ok (r, s'))
-    (hi : retransmitIdle s.conv) (hchg : s'.conv.keys ≠ s.conv.keys) :
+    (hc : ¬ finishingCombination t (authStateOf s.conv)) (_hi : retransmitIdle s.conv) :
+    strictKept s' = strictKept s :=
+  processAKE_strict_nonfinishing K t msg s r s' h hc
+
+/-- C01/1 with the whole key context (repaired code): as `c01_paths`, for any change of `conv.keys` — counters
+    and MAC-key bookkeeping included, whatever is queued for retransmission: only the two finishing
+    combinations change the key context (an ignored message no longer triggers a retransmission) -/
+theorem c01_paths_keys_any (K : Crypto) (t : Nat) (msg : Bytes) (s : MState)
+    (r : Except Err (List Bytes × Option Err)) (s' : MState)
+    (h : runM (processAKE K t msg) s = .ok (r, s'))
+    (hchg : s'.conv.keys ≠ s.conv.keys) :
     (t = msgTypeRevealSig ∧ ∃ a, s.conv.ake = some a ∧ a.state = .awaitingRevealSig) ∨
     (t = msgTypeSig ∧ ∃ a rs, s.conv.ake = some a ∧ a.state = .awaitingSig rs) := by
   by_cases hc : finishingCombination t (authStateOf s.conv)
@@ -2103,10 +2130,20 @@ theorem c01_paths_keys (K : Crypto) (t : Nat) (msg : Bytes) (s : MState)
       · exact Or.inl ⟨h1, a, rfl, h2⟩
       · exact Or.inr ⟨h1, a, rs, rfl, h2⟩
   · exfalso
-    have hq := processAKE_strict_idle K t msg s r s' h hc hi
+    have hq := processAKE_strict_nonfinishing K t msg s r s' h hc
     unfold strictKept at hq
     simp only [Prod.mk.injEq] at hq
     exact hchg hq.2.2.1
+
+/-- the earlier form of `c01_paths_keys_any`, with the (now superfluous) hypothesis that nothing is queued for
+    retransmission -/
+theorem c01_paths_keys (K : Crypto) (t : Nat) (msg : Bytes) (s : MState)
+    (r : Except Err (List Bytes × Option Err)) (s' : MState)
+    (h : runM (processAKE K t msg) s = .ok (r, s'))
+    (_hi : retransmitIdle s.conv) (hchg : s'.conv.keys ≠ s.conv.keys) :
+    (t = msgTypeRevealSig ∧ ∃ a, s.conv.ake = some a ∧ a.state = .awaitingRevealSig) ∨
+    (t = msgTypeSig ∧ ∃ a rs, s.conv.ake = some a ∧ a.state = .awaitingSig rs) :=
+  c01_paths_keys_any K t msg s r s' h hchg
 
 /-! ## 6. the role flag (`sentRevealSig`: which half of the session id is highlighted) — repaired behaviour -/
 
